@@ -194,6 +194,23 @@ Theorem C15_api_edit_local :
     i <> k -> nth k (fst (api_step urlnorm st op)) [] = nth k st [].
 Proof. exact api_edit_local. Qed.
 
+(** Built lists: after ANY sequence of build / add / remove / edit-through-setter /
+    serialise / parse operations, [to_bytes()] of list #i is the serialisation of the records
+    the list holds at that moment, and (well-formed records that fit) parsing it returns
+    exactly those records - never an earlier state of the list. *)
+Theorem C15_api_serialise_current :
+  forall (urlnorm : text -> url_result) (ops : list api_op) (st : list (list rec)) (i : nat),
+    nth (length ops) (api_run urlnorm st (ops ++ [ApiSerialise i])) OutNone
+    = OutBytes (to_bytes (nth i (api_state urlnorm st ops) [])).
+Proof. exact api_serialise_current. Qed.
+
+Theorem C15_api_reparse_current :
+  forall (urlnorm : text -> url_result) (ops : list api_op) (st : list (list rec)) (i : nat),
+    let l := nth i (api_state urlnorm st ops) [] in
+    forallb (wf_rec urlnorm) l = true -> fits31 l ->
+    nth (length ops) (api_run urlnorm st (ops ++ [ApiReparse i])) OutNone = OutParse (Ok l).
+Proof. exact api_reparse_current. Qed.
+
 (** Non-vacuity: a concrete list over eight classes (flags, 16-bit UUID list, name, URI,
     appearance, LE role, TX power, LE features) is well formed, fits, and round-trips. *)
 Example C15_nonvacuous :
